@@ -436,6 +436,19 @@ def patho_p_only_primitive_in_sp(rng):
     return b
 
 
+def patho_tiny_edge_coefficient(rng):
+    """contractions whose first / last non-zero coefficient is tiny (cc-pVDZ-DK3 Ho style: 1e-17) - small, not zero"""
+    b = gen_basis(rng, nel=1, allow_fused=False, lmax=1)
+    el = next(iter(b['elements'].values()))
+    el['electron_shells'] = [{'function_type': 'gto', 'region': '', 'angular_momentum': [0],
+                              'exponents': ['5213.0', '781.4', '177.1', '49.52', '15.71', '5.3'],
+                              'coefficients': [['1.5E-17', '0.0021', '0.0153', '0.0742', '0.2533', '3.1E-19'],
+                                               ['0.0', '-2.2e-18', '-0.0034', '-0.0163', '-0.0801', '-1.0E-20'],
+                                               ['0.0', '0.0', '0.0', '0.0', '0.0', '1.0']]}]
+    b['function_types'] = whole_types(b['elements'])
+    return b
+
+
 PATHOLOGICAL = [patho_dup_function, patho_contraction_on_free, patho_mixed_fused, patho_spd, patho_spd_free_low, patho_pd_fused,
                 patho_equal_coefficients, patho_plain_then_fused_shared, patho_cancelling, patho_unsorted_fused, patho_respelled_shared,
-                patho_p_only_primitive_in_sp]
+                patho_p_only_primitive_in_sp, patho_tiny_edge_coefficient]
